@@ -41,6 +41,10 @@ class Impl:
                 if op.get('exist') is not None: n.existence_status = op['exist']
                 if op.get('mitre') is not None: n.mitre_info = op['mitre']
                 if op.get('extras') not in (None, '{}'): n.extras = json.loads(op['extras'])
+                if op.get('peek'):
+                    # an observer (repr, logging, a debugger) may read the derived attributes of the new object
+                    # before it is added; that must not influence what add_node records
+                    _ = (n.full_name, repr(n), n.to_dict(), n.is_compromised())
                 g.add_node(n, node_id=op.get('id'))
                 self.nodes.append(n)
             elif k == 'link':
@@ -234,7 +238,7 @@ class Gen:
     def add_node(self, explicit=None, dup=False):
         r = self.r
         t = r.choices(TYPES, [5, 5, 2, 1, 1])[0]
-        asset = r.choice(['A', 'B', 'C:1', None]) if self.with_assets else None
+        asset = r.choice(['A', 'B', 'C:1', 'A:1', 'B:x', None]) if self.with_assets else None   # 'A:1' is what add_asset calls the second 'A'; its node keys start with 'A:'
         nid = None
         if dup and self.live_n:
             nid = self.ids[r.choice(self.live_n)]
@@ -247,6 +251,7 @@ class Gen:
               'viable': r.random() < 0.7, 'necessary': r.random() < 0.7,
               'defOne': r.random() < 0.5, 'suppress': r.random() < 0.3, 'id': nid}
         if t == 'defense': op['defense'] = '1.0' if op['defOne'] else '0.5'
+        if r.random() < 0.3: op['peek'] = True
         op['tags'] = ['suppress'] if op['suppress'] else []
         if self.rich:
             from .langgen import jtxt
@@ -323,7 +328,14 @@ class Gen:
                 for i in range(r.randint(1, 2)):
                     cands = [self.names[x] for x in self.live_n if ':' in self.names[x] and not self.names[x][0].isdigit()]
                     eps = r.sample(cands, min(len(cands), r.randint(0, 3)))
-                    if r.random() < 0.3: eps.append('A:nosuchstep')
+                    # entry points that name no node of the graph (unknown step, or a step whose node was removed /
+                    # pruned) are skipped by attach_attackers; they may stand anywhere in an asset's list of steps
+                    if r.random() < 0.3: eps.insert(r.randint(0, len(eps)), 'A:nosuchstep')
+                    if eps and r.random() < 0.3:
+                        eps.insert(r.randint(0, len(eps) - 1), r.choice(eps).rsplit(':', 1)[0] + ':nosuchstep')
+                    gone = [self.names[x] for x in self.dead_n if ':' in self.names.get(x, '') and not self.names[x][0].isdigit()
+                            and self.names[x] not in cands]
+                    if gone and r.random() < 0.4: eps.insert(r.randint(0, len(eps)), r.choice(gone))
                     atts.append([f'm{i}', eps])
                 self.ops.append({'k': 'attach', 'atts': atts})
                 for nm, eps in atts:
